@@ -426,6 +426,37 @@ def spelled_route(route, send):
     return None
 
 
+DEAD_TARGET = "127.0.0.1:1"        # every routing table entry leads to a closed port
+
+
+def with_routes(L, U, routes):
+    """the personality's UCMM class with a routing table `{"p/l": target}` on top (as `[UCMM] Route` or a
+    `route` class attribute would give it)"""
+    if not routes:
+        return U
+    base = U if U is not None else L.ucmm.UCMM
+
+    class UCMM(base):
+        route = {"%s/%s" % (p, l): DEAD_TARGET for p, l in routes}
+    return UCMM
+
+
+def route_keys(routes):
+    return ",".join(hx("%s/%s" % (p, l)) for p, l in routes) if routes else "-"
+
+
+def table_hit(routes, carried):
+    """True/False: the request's first port/link is / is not an entry of the routing table; None = cannot
+    tell from the statement (same digits, other kind of link)"""
+    if not routes or carried == "absent" or not carried or carried[0][0] == "o":
+        return False
+    p, l = carried[0]
+    for tp, tl in routes:
+        if tp == p and str(tl) == str(l):
+            return True if type(tl) is type(l) else None
+    return False
+
+
 def bare_frag(carried, req, frag):
     """a single Read Tag Fragmented (service 0x52) sent without the Unconnected Send wrapper (also 0x52)"""
     return carried == "absent" and frag and not req["multi"] and req["ops"][0][0] in "ru"
@@ -706,13 +737,14 @@ def in_scope(text):
 class C15(Suite):
     id = "C15"
     props_module = "Cpppo.Props.C15"
-    rule = ("exhaustive product personalities x request route paths x services through main()/client.unconnected_send/"
+    rule = ("exhaustive product personalities x (no routing table | 4 routing tables) x request route paths x services through main()/client.unconnected_send/"
             "logix.process (+ TCP sessions through enip_srv_tcp), seeded random segment lists, and parse_route_path/"
             "port_link/int()/ip_address/json.loads on spelled, near-valid and malformed texts; non-trivial = a "
             "restricting personality meets a non-empty request route path (a comparison decides), or a text yields at "
             "least one segment or a trailer; distinct by input")
     assumptions = [
-        "no route table ([UCMM] Route) is configured: remote forwarding is outside the property",
+        "routing tables ([UCMM] Route / UCMM.route) lead to a closed TCP port: a first hop found in the table is forwarded "
+        "and fails with status 0x65 (remote forwarding itself is outside the property); a miss must be filtered locally",
         "link texts contain no ':' (IPv6 links are accepted by the code, not modelled); no backslash escapes in JSON",
         "JSON floats are modelled only as top-level scalars (never as port/link values); dict segments have exactly the "
         "keys port and link",
@@ -743,6 +775,29 @@ class C15(Suite):
                         continue
                     yield {"op": "srv", "cfg": cfg, "tags": TAGS0, "route": route, "send": send, "req": req,
                            "frag": bool((k + j) % 2)}
+        # the same personalities on a device that ALSO has a routing table: a first hop that is not in the table
+        # is a local request and must meet the same route-path test; one that is in it is forwarded
+        tables = [[[1, 5]], [[1, 5], [2, "1.2.3.4"], [16, 255]], [[1, 0]], [[2, 0], [1, "1.2.3.5"], [3, 7]]]
+        extra = [({"kind": "text", "text": "1/5", "spelled": [[1, 5]]}, "D"),
+                 ({"kind": "text", "text": "1/5/1/0", "spelled": [[1, 5], [1, 0]]}, "D"),
+                 ({"kind": "text", "text": "1/7", "spelled": [[1, 7]]}, "D"),
+                 ({"kind": "text", "text": "2/1.2.3.4", "spelled": [[2, "1.2.3.4"]]}, "D"),
+                 ({"kind": "text", "text": "1/0/2/3", "spelled": [[1, 0], [2, 3]]}, "D"),
+                 ({"kind": "raw", "segs": [[1, "5"]]}, "D")]
+        k = 0
+        for cfg in P:
+            if cfg["kind"] == "main" and cfg.get("spelled") is None and cfg["text"] not in (None, ""):
+                continue
+            for ti, table in enumerate(tables):
+                for route, send in R + extra:
+                    k += 1
+                    if quick and (k + ti) % 5:
+                        continue
+                    for j, req in enumerate([S[0], S[2], S[6]] if not quick else [S[0], S[1 + k % 7]]):
+                        if quick and j and k % 3:
+                            continue
+                        yield {"op": "srv", "cfg": cfg, "routes": table, "tags": TAGS0, "route": route, "send": send,
+                               "req": req, "frag": bool((k + j) % 2)}
         for _ in range(400 if quick else 25000):
             yield self.rand_srv(rng)
         for _ in range(100 if quick else 4000):
@@ -824,8 +879,25 @@ class C15(Suite):
         multi = len(ops) > 1 or rng.random() < 0.2
         if not multi and rng.random() < 0.03:
             ops = [["u"]]
-        return {"op": "srv", "cfg": cfg, "tags": TAGS0, "route": route, "send": send,
-                "req": {"multi": multi, "ops": ops}, "frag": rng.random() < 0.5}
+        return {"op": "srv", "cfg": cfg, "routes": self.rand_table(rng, segs, route), "tags": TAGS0, "route": route,
+                "send": send, "req": {"multi": multi, "ops": ops}, "frag": rng.random() < 0.5}
+
+    def rand_table(self, rng, cfgsegs, route):
+        """no table (half of the time), or a few entries: random ones, sometimes the configured first hop,
+        sometimes the request's own first hop"""
+        if rng.random() < 0.5:
+            return []
+        table = [rand_seg(rng, wire=True) for _ in range(rng.randint(1, 3))]
+        if rng.random() < 0.15:
+            table.append(list(cfgsegs[0]))
+        sp = route.get("spelled") or route.get("segs") or []
+        if sp and sp[0][0] != "o" and rng.random() < 0.25:
+            table.append([sp[0][0], sp[0][1]])
+        uniq = []
+        for e in table:
+            if not any(str(e[0]) == str(u[0]) and str(e[1]) == str(u[1]) for u in uniq):
+                uniq.append(e)
+        return uniq
 
     def rand_sess(self, rng):
         segs = rand_segs(rng, wire=True, lo=1, hi=2)
@@ -838,7 +910,9 @@ class C15(Suite):
                     break
             ops = rand_ops(rng)
             frames.append({"route": route, "send": send, "req": {"multi": len(ops) > 1, "ops": ops}})
-        return {"op": "sess", "cfg": cfg, "tags": TAGS0, "frames": frames, "chunk": rng.choice(["one", "each", "split"])}
+        routes = self.rand_table(rng, segs, frames[-1]["route"])
+        return {"op": "sess", "cfg": cfg, "routes": routes, "tags": TAGS0, "frames": frames,
+                "chunk": rng.choice(["one", "each", "split"])}
 
     def primitive_cases(self, tier, rng):
         quick = tier == "quick"
@@ -913,11 +987,11 @@ class C15(Suite):
         if op == "main":
             return "rp.main %s %d" % ("~" if c["text"] is None else hx(c["text"]), int(c["simple"]))
         if op == "srv":
-            return "rp.srv %s %s %s %s" % (self.line_cfg(c["cfg"]), self.line_tags(c["tags"]),
+            return "rp.srv %s %s %s %s %s" % (self.line_cfg(c["cfg"]), route_keys(c.get("routes")), self.line_tags(c["tags"]),
                                             self.line_route(c["route"], c["send"]), self.line_req(c["req"], c.get("frag", True)))
         if op == "sess":
             fr = " ".join("%s %s" % (self.line_route(f["route"], f["send"]), self.line_req(f["req"])) for f in c["frames"])
-            return "rp.sess %s %s %s" % (self.line_cfg(c["cfg"]), self.line_tags(c["tags"]), fr)
+            return "rp.sess %s %s %s %s" % (self.line_cfg(c["cfg"]), route_keys(c.get("routes")), self.line_tags(c["tags"]), fr)
         raise ValueError(op)
 
     @staticmethod
@@ -1086,7 +1160,7 @@ class C15(Suite):
         L.device.lookup_reset()
         L.logix.setup_reset()
         try:
-            U = configure(L, c["cfg"])
+            U = with_routes(L, configure(L, c["cfg"]), c.get("routes"))
         except CfgReject:
             return "cfg-reject"
         try:
@@ -1108,7 +1182,7 @@ class C15(Suite):
         L.device.lookup_reset()
         L.logix.setup_reset()
         try:
-            U = configure(L, c["cfg"])
+            U = with_routes(L, configure(L, c["cfg"]), c.get("routes"))
         except CfgReject:
             return "cfg-reject"
         try:
@@ -1240,6 +1314,15 @@ class C15(Suite):
             return None if refused else "an Unconnected Send addressed to %s was executed" % c["send"]
         if pers is None or carried is None:
             return None
+        hit = table_hit(c.get("routes"), carried)
+        if hit is None:
+            return None
+        if hit:
+            # the first hop is in the routing table: the request is for another device (forwarding is outside
+            # the property), so nothing may happen to this device's tags
+            if tags != tags0 or log != "-":
+                return "a request routed to another device touched local tags: %s %s" % (tags, log)
+            return None
         want = want_accept(pers, carried)
         ref = ref_exec(c["tags"], c["req"]["ops"])
         if bare_frag(carried, c["req"], c.get("frag", True)):
@@ -1287,7 +1370,10 @@ class C15(Suite):
             carried = spelled_route(f["route"], f["send"])
             if carried is None:
                 return None
-            if f["send"].startswith("O"):
+            hit = table_hit(c.get("routes"), carried)
+            if hit is None:
+                return None
+            if f["send"].startswith("O") or hit:        # refused / forwarded to a dead target: the session ends
                 expect += 1
                 break
             expect += 1
@@ -1313,6 +1399,8 @@ class C15(Suite):
         carried = spelled_route(c["route"], c["send"])
         if c["send"].startswith("O"):
             return "notcm"
+        if c.get("routes") and carried is not None and table_hit(c["routes"], carried) is not False:
+            return "tablehit"
         if pers is None:
             return "cfg?"
         if carried is None:
@@ -1353,9 +1441,9 @@ class C15(Suite):
         if op == "srv":
             svc = "multi" if c["req"]["multi"] else c["req"]["ops"][0][0]
             res = out.split(" ")[1] if out[0] in "01" else out.split(" ")[0]
-            return "srv:%s:%s:st%s" % (self.relation(c), svc, res)
+            return "srv%s:%s:%s:st%s" % ("+table" if c.get("routes") else "", self.relation(c), svc, res)
         if op == "sess":
-            return "sess:" + out.split(" ")[0]
+            return "sess%s:%s" % ("+table" if c.get("routes") else "", out.split(" ")[0])
         return op
 
     def nontrivial(self, c, out):
